@@ -54,9 +54,6 @@
 #include <crab/domains/interval.hpp>
 #include <crab/domains/patricia_trees.hpp>
 #include <crab/support/debug.hpp>
-#ifdef CRAB_VERIF
-#include <crab/support/verif_hooks.hpp>
-#endif
 #include <crab/support/stats.hpp>
 #include <crab/types/indexable.hpp>
 
@@ -2638,9 +2635,6 @@ public:
                      crab::outs() << "Array " << a << " has been smashed:"
                                   << m_base_dom << "\n";);
           } else {
-#ifdef CRAB_VERIF
-            crab::verif_hooks::note("array_adaptive.store_ignored");
-#endif
             CRAB_LOG(
                 "array-adaptive",
                 if (cells.size() > crab_domain_params_man::get()
@@ -2730,9 +2724,6 @@ public:
            e_sz);
       CRAB_WARN("array adaptive store range will ignore indexes greater than ",
                 e);
-#ifdef CRAB_VERIF
-      crab::verif_hooks::note("array_adaptive.store_range_truncated");
-#endif
     }
 
     for (number_t i = *lb; i <= e;) {
